@@ -86,6 +86,16 @@ type (
 
 // Validate implements custom validation for Spec
 func (spec Spec) Validate() error {
+	for _, p := range spec.Policies {
+		if p == nil {
+			return fmt.Errorf("policy must not be null")
+		}
+		// the refresh period is a divisor in the rate limiter
+		if d, err := time.ParseDuration(p.LimitRefreshPeriod); err == nil && d <= 0 {
+			return fmt.Errorf("policy '%s': limitRefreshPeriod must be greater than 0", p.Name)
+		}
+	}
+
 URLLoop:
 	for _, u := range spec.URLs {
 		name := u.PolicyRef
